@@ -56,6 +56,13 @@ def cell_both(entry, model):
         keep_t = rng.random() < 0.5
         ctl = (tp, None) if keep_t else (None, min(float(pp), 0.5))
         pv, T, x, prec = fc.pv, fc.t_feed, fc.comp, fc.precision
+        temperature_form = "scalar"
+        if rng.random() < 0.15:
+            # the feed temperature handed over as a sequence / array (the released API is scalar; a tree that starts accepting such
+            # a form must keep rejecting the contradictory specification on it)
+            import numpy
+
+            temperature_form, T = rng.choice([("list", [T]), ("tuple", (T, T + 5.0)), ("array", numpy.array([T, T + 5.0]))])
         if entry == "get_partial_fluxes_from_permeate_composition":
             from pyvaporation.mixtures import Composition
 
@@ -96,7 +103,7 @@ def cell_both(entry, model):
                                                       permeate_temperature=t, permeate_pressure=p))
         else:
             raise KeyError(entry)
-        return mk(tp, pp), mk(*ctl), dict(fc.describe(), Tp=tp, pp=pp)
+        return mk(tp, pp), mk(*ctl), dict(fc.describe(), Tp=tp, pp=pp, feed_temperature_given_as=temperature_form)
 
     return (f"both permeate conditions -> {entry} [{model}]", build, entry.startswith("non_ideal"))
 
